@@ -63,7 +63,7 @@ func newC04(tier string) run.Job {
 	}
 	j.ds = &docSet{modes: modes}
 	nd := len(gen.Docs(spec4))
-	for i, d := range append(gen.Docs(spec4), gen.WideDocs()...) {
+	for i, d := range append(append(gen.Docs(spec4), gen.WideDocs()...), gen.BigDocs()...) {
 		j.big = append(j.big, i < nd && gen.Nodes(d) >= 5)
 		j.ds.text = append(j.ds.text, gen.JSON(d))
 		for _, m := range modes {
